@@ -254,6 +254,8 @@ class Model:
             yield st._replace(cached=(None, None)), None, ()
         elif k == "fail_next":
             yield st._replace(fail=True), None, ()
+        elif k == "start":
+            yield st, None, ()      # starting a process changes no terminal fact and no setting
         else:
             raise ValueError(op)
 
@@ -312,7 +314,8 @@ def _opname(op):
     names = dict(cell_size="get_cell_size()", cell_ratio="get_cell_ratio()", name="get_terminal_name_version()",
                  render="[get_fg_bg_colors(), background shown by a BlockImage render for a pixel equal to the default bg]",
                  tsc="terminal_size_cached probe", tsc_inv="probe._invalidate_terminal_size_cache()",
-                 cached_inv="probe._invalidate_cache()", fail_next="make the next probe body run raise")
+                 cached_inv="probe._invalidate_cache()", fail_next="make the next probe body run raise",
+                 start="Process.start() (cell-size cache migrates to shared memory)")
     k = op[0]
     if k == "ratio":
         return f"set_cell_ratio({op[1]}) [raised, get_cell_ratio() afterwards]"
